@@ -1,11 +1,20 @@
 // Untrusted-input layer (C03): the complete read side on arbitrary bytes, in-process, under ASan/UBSan.
-//   fz <hex>   ->  I <status>   status: ok:<blocks>:<records> | exc:end | exc:dec | exc:other
+//   fz <hex>   ->  I <status> A<largest single allocation request in bytes> T<microseconds>   status: ok:<blocks>:<records> | exc:end | exc:dec | exc:other
 // Sanitizer reports, signals and the per-input alarm kill the process: the runner records the input as crashing.
 #include "common.h"
 #include "records.h"
 #include <sstream>
 #include <unistd.h>
 #include <signal.h>
+#include <chrono>
+
+#if defined(__SANITIZE_ADDRESS__)
+// AddressSanitizer calls this after every successful allocation: the largest single request made while one input is processed
+static volatile std::size_t g_max_alloc = 0;
+extern "C" void __sanitizer_malloc_hook(const volatile void*, std::size_t size) { if (size > g_max_alloc) g_max_alloc = size; }
+#else
+static volatile std::size_t g_max_alloc = 0;
+#endif
 
 namespace {
 volatile std::size_t g_sink = 0;
@@ -33,6 +42,18 @@ std::string run_one(const std::string& data) {
             // item-level renderers
             for (auto& q : b.m_query_responses) use(q.string());
             for (auto& m : b.m_malformed_messages) use(m.string());
+            for (auto& a : b.m_address_event_counts) { CDNS::AddressEventCount k(a.first); use(k.string()); }
+            // every table entry through its accessor and its renderer
+            for (CDNS::index_t i = 0; i < b.m_ip_address.size(); i++) use(b.get_ip_address(i));
+            for (CDNS::index_t i = 0; i < b.m_name_rdata.size(); i++) use(b.get_name_rdata(i));
+            for (CDNS::index_t i = 0; i < b.m_classtype.size(); i++) use(b.get_classtype(i).string());
+            for (CDNS::index_t i = 0; i < b.m_qr_sig.size(); i++) use(b.get_qr_signature(i).string());
+            for (CDNS::index_t i = 0; i < b.m_qlist.size(); i++) g_sink += b.get_question_list(i).size();
+            for (CDNS::index_t i = 0; i < b.m_qrr.size(); i++) use(b.get_question(i).string());
+            for (CDNS::index_t i = 0; i < b.m_rrlist.size(); i++) g_sink += b.get_rr_list(i).size();
+            for (CDNS::index_t i = 0; i < b.m_rr.size(); i++) use(b.get_rr(i).string());
+            for (CDNS::index_t i = 0; i < b.m_malformed_message_data.size(); i++) use(b.get_malformed_message_data(i).string());
+            use(b.m_block_preamble.earliest_time.string());
             if (b.m_block_statistics) use(b.m_block_statistics->string());
             use(b.m_block_preamble.string());
         }
@@ -48,10 +69,15 @@ int vh::run_fz(int, char**) {
     while (std::getline(std::cin, line)) {
         auto a = vh::split(line, ' ');
         if (a.size() < 2) { std::cout << "bad-op\n"; continue; }
+        std::string input = vh::from_hex(a[1]);
         alarm(20);
-        std::string r = run_one(vh::from_hex(a[1]));
+        g_max_alloc = 0;
+        auto t0 = std::chrono::steady_clock::now();
+        std::string r = run_one(input);
+        auto us = std::chrono::duration_cast<std::chrono::microseconds>(std::chrono::steady_clock::now() - t0).count();
+        std::size_t largest = g_max_alloc;
         alarm(0);
-        std::cout << "I " << r << std::endl;
+        std::cout << "I " << r << " A" << largest << " T" << us << std::endl;
     }
     return 0;
 }
